@@ -431,11 +431,21 @@ def enum_static():
     return EnumStatic()
 
 
+def enum_probes():
+    import re
+    from units import gen
+    return [f for f in gen.probe_files() if re.search(r'^\s*enum\s', open(f).read(), re.M)]
+
+
 def C15():
     gn = gen_native()
+    from units import gen
     return {
-        'level': 'exploration', 'parts': [gn, enum_static()], 'samples': [], 'own_classes': C15_CLASSES,
+        'level': 'exploration', 'parts': [gn, enum_static(), ProofPart(gen, 'GEN-enum', {'part': 'enum', 'probes': enum_probes()}, own_only=True)],
+        'samples': ['new_<enum>(value: <Enum>Case) -> res (Verus, real emitted text): requires inv, the fields of the case are existing elements; ensures match value { <Enum>Case::Ctor(el..) => inv && (ctor(root el..) defined before ==> res is that value and the model is unchanged) && (undefined before ==> res is a fresh element and t_ctor is extended by exactly that row) && t_ctor.contains(root el.., res) && every other relation unchanged } -- the variants are read off the emitted enum declaration, not off the body under proof'],
+        'own_classes': C15_CLASSES,
         'assumptions': [
+            'proof part GEN-enum (per enum probe program, all states and arguments): new_<enum>(Case) is proved on the emitted text against the contract "returns the value of the constructor application named by the case (existing, model unchanged; or fresh, exactly one row added), invariant preserved", on top of the proved contracts of define_<constructor> (unit GEN, reported under C05); <enum>_cases / <enum>_case (iterator chains) stay bounded',
             'bounded and partial: programs are the probe theories with enum types (p3: Zero / Succ; p9: Var(Name) / App(Expr, Expr) / Unit); operation sequences as stated in coverage.rule; never counted as proof',
             'decided: after every close() every element of an enum type has at least one constructor case (so <enum>_case cannot panic), <enum>_cases lists exactly the constructor applications that evaluate to the element, each reported application evaluates to an element equal to it; new_<enum>(Case) returns the existing value of the constructor application or a fresh element and the application evaluates to it afterwards',
             'static half, bounded (part enum_static): 8 programs whose rule would create an enum element through a non-constructor function or an unbound variable must be rejected with a diagnostic, 5 neighbours that use constructor applications (or a plain type) must be accepted; in the modules emitted for the enum probes every `pub fn (&mut self ..) -> <Enum>` is new_<enum>(value: <Enum>Case) or define_<constructor>. The expectations come from the property statement; the semantic check itself (eqlog.eql rules evaluated by generated code) is not under contract',
